@@ -41,6 +41,7 @@ extern "C" const char* __asan_default_options() {
     return "detect_leaks=0:halt_on_error=1:abort_on_error=0:exitcode=77:allocator_may_return_null=1:"
            "detect_stack_use_after_return=0:handle_segv=1:symbolize=1:print_summary=1";
 }
+extern "C" int __lsan_do_recoverable_leak_check();
 extern "C" const char* __ubsan_default_options() { return "print_stacktrace=0:halt_on_error=0:exitcode=77"; }
 
 static int g_outfd = 1;
@@ -610,6 +611,14 @@ static void runJob(const vutil::Job& j) {
         jobLoad(j);
     else
         emit("S {\"status\":\"harness_error\",\"msg\":\"unknown job kind\"}");
+#if defined(__has_feature)
+#if __has_feature(address_sanitizer)
+    // opt leakcheck=1 (driver started with ASAN_OPTIONS=detect_leaks=1): everything the job allocated and did not free is reported by
+    // LeakSanitizer on stderr ("ERROR: LeakSanitizer: detected memory leaks") and counted here
+    if (j.get("leakcheck", "0") == "1")
+        emit("S {\"leakcheck\":" + std::to_string(__lsan_do_recoverable_leak_check()) + "}");
+#endif
+#endif
     emit("D");
 }
 
